@@ -175,7 +175,7 @@ PROPS["C12"] = {
     "bounded": [{"name": "_generate_next contract, zero-volatility path, covariance algebra", "replayer": "fundamentals", "bound": "150 (quick) / 3000 (thorough) seeded cases per clause: 1-4 markets, chunk 3/5/100, 1-6 operations", "timeout": 1500}],
     "not_decided": ["that sample log-returns have mean = drift, standard deviation = volatility and the configured correlations (a statement about numpy's standard_normal)"],
 }
-PROPS["C18"]["tasks"].append("json_extends")
+PROPS["C18"]["tasks"] += ["json_extends", "Simulator._add_market", "Simulator._add_agent", "Simulator._add_session"]
 PROPS["C10"]["tasks"] += SKELETON
 PROPS["C05"]["tasks"] += RUNNER_ELEMS
 PROPS["C06"]["tasks"] += SKELETON + ["SequentialRunner._generate_sessions[session]"]
